@@ -103,6 +103,14 @@ def step_strategy(draw, nd, nvdim, real, has_subs=False, bystander=False):
     raise AssertionError(kind)
 
 
+# OVF, VTK, plots and the 3-d tools document that vector fields need component labels
+NEED_LABELS = ("C09", "C16", "C18", "C19", "C20")
+
+ORIGINS = ["fftn", "fft-roundtrip", "rot-odd", "rot-copy", "range", "box", "pad2", "resample2", "mul", "h5", "xarray",
+           "plane", "ovf-bin8", "ovf-txt", "vtk-bin", "vtk-xml", "ufunc", "sub-getitem", "imag", "angle-free",
+           "mesh-ops"]
+
+
 def aged_case(prop):
     cfg = CFG[prop]
 
@@ -122,7 +130,7 @@ def aged_case(prop):
         opts = {"ndim-or-1": [1, nd, nd], "3-or-1": [1, 3, 3], "3": [3], "ndim-or-1-or-3": [1, nd, 3]}.get(
             nv, [1, 1, nd, nd, 2, 3])  # scalar or fully mapped vector: rotate90 applies
         nvdim = opts[(mix // 7) % len(opts)]
-        dtype = "float" if cfg.get("real") else draw(st.sampled_from(["float", "float", "complex", "int"]))
+        dtype = "float" if cfg.get("real") else draw(st.sampled_from(["float", "float", "complex", "int", "float32"]))
         # region-level writes (mesh.region.translate / scale / units) apply to meshes without subregions only
         want_subs = cfg.get("subs") or draw(st.booleans())
         subs = draw(gen.index_boxes(g["n"], max_boxes=2, min_boxes=1)) if want_subs else []
@@ -131,15 +139,17 @@ def aged_case(prop):
         derive_how = hows[(mix // 1013) % len(hows)] if (mix // 131) % 10 < 3 else None
         script = draw(st.lists(step_strategy(nd, nvdim, dtype == "float", bool(subs), bystander=derive_how is not None),
                                min_size=1, max_size=5))
-        return {"prop": prop, "g": g, "subs": subs, "nvdim": nvdim, "vdims": draw(gen.vdims_strategy(nvdim)),
+        vd = draw(gen.vdims_strategy(nvdim))
+        if nvdim > 1 and (mix // 31) % 8 == 0 and prop not in NEED_LABELS:
+            vd = []  # born without labels (OVF, VTK, plots and the 3-d tools document that they need them)
+        return {"prop": prop, "g": g, "subs": subs, "nvdim": nvdim, "vdims": vd,
                 "perm": list(draw(st.permutations(range(max(nd, nvdim))))), "dtype": dtype,
                 "seed": draw(st.integers(0, 2**31)),
                 "mask": ["all"] if draw(st.booleans()) else draw(gen.mask_spec(nd)),
                 # the writes go to the object itself, or to an object derived from it (then the object must not change)
                 "derive": derive_how,
                 "origin": None if derive_how is not None or (mix // 7919) % 10 >= 3 else
-                ["fftn", "fft-roundtrip", "rot-odd", "rot-copy", "range", "box", "pad2", "resample2", "mul", "h5", "xarray",
-                 "plane"][(mix // 104729) % 12],
+                ORIGINS[(mix // 104729) % len(ORIGINS)],
                 "unit": draw(st.sampled_from(gen.FIELD_UNITS)), "bc0": draw(st.integers(0, 7)),
                 "script": script, "obs_seed": draw(st.integers(0, 2**31)),
                 "final_warm": draw(st.booleans())}
@@ -174,14 +184,16 @@ def build_initial(case):
     mesh = gen.build_mesh(g, bc=_bc_string(case["bc0"], dims), subs=case["subs"])
     labels = case["vdims"] or gen.default_vdims(k)
     kw = {}
-    if k > 1 and k == nd:
+    if case["vdims"] == [] and k > 1:
+        pass  # components without labels: no mapping either
+    elif k > 1 and k == nd:
         # a permuted, complete mapping (the default is positional)
         perm = [p for p in case["perm"] if p < nd]
         kw["vdim_mapping"] = gen.shuffled_mapping({labels[c]: dims[perm[c]] for c in range(k)}, case["seed"])
     elif k == 3 and nd == 2:
         perm = [p for p in case["perm"] if p < 3]
         kw["vdim_mapping"] = {labels[perm[0]]: dims[0], labels[perm[1]]: dims[1], labels[perm[2]]: None}
-    dt = {"complex": np.complex128, "int": np.int64}.get(case["dtype"])
+    dt = {"complex": np.complex128, "int": np.int64, "float32": np.float32}.get(case["dtype"])
     # "all valid" is given the way most users give it: not at all (valid=True), so that "no mask so far" shortcuts
     # are exercised before a mask is written in place
     valid = True if case["mask"] == ["all"] else gen.make_mask(case["mask"], n)
@@ -287,8 +299,8 @@ def apply_step(f, step, case):
         import itertools
         perm = list(itertools.permutations(range(4)))[step[3]]
         new = [pool[i] for i in perm[:k]]
-        if set(new) & set(dims) and False:
-            return None
+        if step[3] % 6 == 5 and case["prop"] not in NEED_LABELS:
+            new = []  # the components lose their labels altogether
         f.vdims = new
     elif kind == "bc":
         f.mesh.bc = _bc_string(step[2], dims)
@@ -334,7 +346,8 @@ def build_fresh(s):
     region = df.Region(p1=s["pmin"], p2=s["pmax"], dims=s["dims"], units=s["units"], tolerance_factor=s["tol"])
     subs = {name: df.Region(p1=a, p2=b) for name, a, b in s["subs"]}
     mesh = df.Mesh(region=region, n=s["n"], bc=s["bc"], subregions=subs)
-    return df.Field(mesh, nvdim=s["nvdim"], value=s["array"].copy(), vdims=s["vdims"],
+    return df.Field(mesh, nvdim=s["nvdim"], value=s["array"].copy(),
+                    vdims=[] if (s["vdims"] is None and s["nvdim"] > 1) else s["vdims"],
                     dtype=None if s["dtype"] is None else np.dtype(s["dtype"]),
                     unit=s["unit"], valid=s["valid"].copy(), vdim_mapping=dict(s["mapping"]))
 
@@ -504,6 +517,24 @@ def _c02(f, P):
         out["components"] = lambda: [getattr(f, lab) for lab in f.vdims]
     if "r" not in _dims(f):
         out["line"] = lambda: f.line(P["pts"][0], P["pts"][1], n=5)
+    # the object's mesh as the *target* of every kind of value specification
+    import discretisedfield as df
+    m = f.mesh
+    nd = m.region.ndim
+
+    def from_field():
+        src_mesh = df.Mesh(region=copy.deepcopy(m.region), n=tuple(int(3 * k) for k in m.n))
+        src = df.Field(src_mesh, nvdim=nd, value=lambda p: [float(x) * (i + 1) for i, x in enumerate(p)])
+        return df.Field(m, nvdim=nd, value=src).array
+
+    out["from-fn"] = lambda: df.Field(m, nvdim=nd, value=lambda p: [float(x) for x in p]).array
+    out["from-field"] = from_field
+    out["from-const"] = lambda: df.Field(m, nvdim=2, value=(1.5, -2)).array
+    out["cells"] = lambda: [np.asarray(c) for c in m.cells]
+    if m.subregions:
+        names = sorted(m.subregions)
+        out["from-dict"] = lambda: df.Field(m, nvdim=1, value={**{k: i + 1.0 for i, k in enumerate(names)},
+                                                              "default": -1.0}).array
     return out
 
 
@@ -823,7 +854,7 @@ OBS = {
 # exception raised by both the aged and the fresh object is otherwise only recorded)
 MUST_SUCCEED = {
     "C01": None, "C06": None, "C13": None,  # None = all of the property's observables
-    "C02": ["sample", "iter", "components"], "C03": ["neg", "abs", "add", "mul", "rmul", "sub", "div", "sq", "conj", "real", "imag"],
+    "C02": ["sample", "iter", "components", "from-fn", "from-field", "from-const", "cells", "from-dict"], "C03": ["neg", "abs", "add", "mul", "rmul", "sub", "div", "sq", "conj", "real", "imag"],
     "C04": ["d1", "d2", "d1u"], "C07": ["range", "region", "slices", "pad", "pad-wrap", "resample", "plane", "plane-value"],
     "C08": ["own", "neg", "norm", "diff", "add", "real", "pad", "resample", "h5"], "C10": ["h5"],
     "C11": ["fftn", "kmesh", "back"], "C15": ["norm"], "C17": ["export", "back"],
@@ -917,6 +948,35 @@ def derive(f, how, case):
         import discretisedfield as df
 
         return df.Field.from_xarray(f.to_xarray())
+    if how in ("ovf-bin8", "ovf-txt", "vtk-bin", "vtk-xml"):
+        if f.mesh.region.ndim != 3 or f.array.dtype.kind == "c":
+            return None
+        if f.nvdim > 1 and f.vdims is None:
+            return None  # both writers need component labels (VTK says so, OVF fails on them)
+        if how.startswith("ovf") and len(set(f.mesh.region.units)) != 1:
+            return None  # documented: OVF carries one unit for all directions
+        ext, rep = {"ovf-bin8": ("ovf", "bin8"), "ovf-txt": ("omf", "txt"), "vtk-bin": ("vtk", "bin"),
+                    "vtk-xml": ("vtk", "xml")}[how]
+        return _tmp_roundtrip(f, ext, representation=rep)[0]
+    if how == "ufunc":
+        return np.add(f, f) if f.array.dtype.kind != "i" else np.negative(f)
+    if how == "sub-getitem":
+        names = sorted(f.mesh.subregions)
+        return f[names[int(rng.integers(0, len(names)))]] if names else None
+    if how == "imag":
+        return f.imag
+    if how == "angle-free":  # a field built by the library from a function of position
+        import discretisedfield as df
+
+        return df.Field(f.mesh, nvdim=f.nvdim, value=lambda p: [float(sum(p)) * (i + 1) for i in range(f.nvdim)],
+                        vdims=f.vdims, unit=f.unit, valid=f.valid.copy(), vdim_mapping=dict(f.vdim_mapping), dtype=f.array.dtype)
+    if how == "mesh-ops":  # the mesh itself comes out of out-of-place mesh operations
+        import discretisedfield as df
+
+        m = f.mesh
+        m2 = m.translate([0.0] * m.region.ndim).scale(1.0)
+        return df.Field(m2, nvdim=f.nvdim, value=f.array.copy(), vdims=f.vdims, unit=f.unit, valid=f.valid.copy(),
+                        vdim_mapping=dict(f.vdim_mapping), dtype=f.array.dtype)
     raise AssertionError(how)
 
 
